@@ -416,5 +416,7 @@ def check(ctx: Ctx, col: Collector, tier: str) -> None:
                                   f"{[render(t.value)[-20:] for t in fl]}", *([] if good else ["the TODO block does not end with a line break: the following declaration is commented out"]))
     from .shared import share
     share(ctx, col, "C10", {"C10.WRITE-MODE"}, "a stub file has exactly one header: placeholder stubs are created once and only appended to afterwards")
+    share(ctx, col, "C05", {"C05.UNION-NORMAL"}, "the nullable shorthand `X?` is only written for member kinds that render as a named type",
+          key_filter=lambda o: "nullable-member-kind" in o.key)
     col.assume("Python identifiers of the analysed package are ASCII; numbers are rendered by str() of an int/float")
     col.assume("semantic validity (name resolution) and layout are not decided here")
